@@ -91,6 +91,14 @@ pub fn read_outcome(store: &Shared, policy: &Policy, bufs: &[u32], pw: &dyn Fn(u
                 );
                 let (data, err, _) = read_all(&mut f, bufs, 1 << 30);
                 let mut post = true;
+                if err.is_some() {
+                    // C11: "... then or on any later call": a caller may well try the same entry again
+                    // after an error (a transient early end-of-file, say); those calls must return too
+                    let mut b = [0u8; 64];
+                    for _ in 0..4 {
+                        let _ = f.read(&mut b);
+                    }
+                }
                 if err.is_none() {
                     let mut b = [0u8; 7];
                     for _ in 0..10 {
@@ -119,6 +127,12 @@ pub fn stream_outcome(store: &Shared, policy: &Policy, bufs: &[u32], io_out: &mu
                 #[allow(deprecated)]
                 let meta = format!("{:?}|{}|{}|{}|{:#x}|{:#x},{:#x}", f.name(), f.compression().to_u16(), f.size(), f.compressed_size(), f.crc32(), f.last_modified().datepart(), f.last_modified().timepart());
                 let (data, err, _) = read_all(&mut f, bufs, 1 << 30);
+                if err.is_some() {
+                    let mut b = [0u8; 64];
+                    for _ in 0..4 {
+                        let _ = f.read(&mut b);
+                    }
+                }
                 out.push(EntryOut { meta, len: data.len() as u64, crc: crc32(&data), err: err.map(|e| format!("{:?}/{}", e.kind(), e)), post_eof_zero: true });
             }
             Ok(None) => break,
